@@ -1,5 +1,20 @@
 package dagaz
 
+import "sync"
+
+// State is the dagaz state of a session. It is shared by the session's
+// participants, whose requests are handled concurrently.
 type State struct {
+	mutex            sync.Mutex
 	SpatialPartition SpatialPartition
+}
+
+// withSpatialPartition calls f with the session's spatial partition while
+// holding the state lock. Everything read from or written to the partition,
+// including the quads it returns, must be used inside f.
+func (s *State) withSpatialPartition(f func(SpatialPartition)) {
+	s.mutex.Lock()
+	defer s.mutex.Unlock()
+
+	f(s.SpatialPartition)
 }
